@@ -2,6 +2,7 @@ SPECIFICATION GenSpec
 CONSTANTS
   MaxSrv = 3
   MaxCli = 3
+  ReqBuf = 16
   Cfgs <- AllCfgs
   Lite = "lite"
 VIEW AbsView
